@@ -335,7 +335,9 @@ def check_foreign(case, ctx):
         _, ref = read_all(lambda: RecordReader(pre + plain_path))
         expected = [observe(r) for r in ref]
         if len(ref) != len(records):
-            raise RuntimeError("harness: uncompressed reference reading gives %d of %d records" % (len(ref), len(records)))
+            # plain, uncompressed reading already loses records: C01's matter, nothing to compare the codecs with
+            ctx.cls("abandoned:plain-reading-incomplete")
+            return
         if case.get("cat"):
             # a second complete stream (own header, own descriptor frames) behind the first
             second = [desc("w%d" % i, 100 + i, b"", _generated=g) for i in range(case["n"] + 1)]
